@@ -10,6 +10,7 @@ import (
 	"encoding/hex"
 	"fmt"
 	"io"
+	"log"
 	"net/http"
 	"net/http/httptest"
 	"os"
@@ -711,6 +712,9 @@ func emit(line string) {
 
 func main() {
 	defer hx.Flush()
+	// The server logs every request; the orchestrator drains stderr shard by shard, so a chatty
+	// harness would block on a full pipe.
+	log.SetOutput(io.Discard)
 	startServer()
 	defer server.Close()
 	if lines := hx.ReplayLines(); lines != nil {
@@ -765,7 +769,7 @@ func main() {
 		rec(nil)
 	}
 	alpha2 := []byte("ab:<>| \t\"\\")
-	for n := hx.N(3000, 60000) / nshards; n > 0; n-- {
+	for n := hx.N(3000, 160000) / nshards; n > 0; n-- {
 		mk := func(max int) string {
 			b := make([]byte, r.Intn(max))
 			for i := range b {
@@ -780,7 +784,7 @@ func main() {
 		emit(swLine(next(), mk(12), add))
 	}
 	// histories
-	nh := hx.N(480, 6400) / nshards
+	nh := hx.N(800, 32000) / nshards
 	for i := 0; i < nh; i++ {
 		mode := 0
 		switch {
